@@ -5,13 +5,14 @@ Property theorems only. Model: M-Wire Cost.lean — the allocation that is *driv
 lengths* (`make` sizes and buffer growth), following the control flow of the decoders. What the
 model cannot exhibit: the Go allocator's real footprint and wall time; the harness measures
 `runtime.MemStats.TotalAlloc` on the implementation against the model's prediction.
-Not covered by a theorem yet (stated here so the gap is visible): that an *unforced* random-access
-decode of a struct bounds every lazy container's declared count by N (`lazy_extent`), which is
-what bounds the pre-sizing in generated `FromWire`; the harness checks it dynamically.
+`lazy_counts_le_input` covers the random-access decoder WITHOUT forcing: every lazy container of a
+successfully decoded struct message declares at most N elements, which is what bounds the pre-sizing
+in generated `FromWire` (`make(T, 0, l.Size())`).
 The generated streaming decoders violate the property (finding D3, known): `gen_prealloc_unbounded`.
 -/
 import ThriftVerif.Wire.CostProofs
 import ThriftVerif.Wire.Totality
+import ThriftVerif.Schema.LazyExtent
 
 namespace ThriftVerif.Properties.C13
 open ThriftVerif.Wire
@@ -47,6 +48,14 @@ theorem decoded_list_count_le_input (f : Nat) (bs : Bytes) (et : UInt8) (items :
     | cons v vs ih => have := enc_length_pos v; simp [encList]; omega
   have := hb items
   rw [← h1]; simp [enc]; omega
+
+/-- Random-access decoder, unforced: if decoding a struct message succeeds, every lazy container in
+it (at any depth of eagerly decoded structs) declares at most N elements — whatever the message
+declares, because the struct's stop byte is read after every unchecked seek. -/
+theorem lazy_counts_le_input (f : Nat) (bs : Bytes) (lv : ThriftVerif.Schema.LVal) (s' : St)
+    (h : ThriftVerif.Schema.decL f TType.struct.code (bs, 0) = .ok (lv, s')) :
+    ∀ c ∈ ThriftVerif.Schema.lazyCounts lv, c ≤ bs.length :=
+  ThriftVerif.Schema.lazy_counts_le_input f bs lv s' h
 
 /-- Finding D2 (repaired in /repo): the original legacy-envelope name read allocated the declared
 length — 5 input bytes could demand 2 GiB; after the repair the same input costs ≤ 1028 bytes. -/
